@@ -381,6 +381,63 @@ func init() {
 		p.addObs("position")
 		p.addObs("ok")
 	}, replay: c09Replay})
+	// every path that writes a string: keys and values of both encoders, top level and nested, for EVERY string
+	// of <= 3 bytes (a whole rune of any width fits) - each must be the escaper's text for that string, which
+	// c09/all-bytes checks against the reference decoder for exactly these strings
+	parts = append(parts, partDef{prop: "C09", name: "c09/encoder-paths", tiers: "qt", run: func(r *runCtx, p *Part) {
+		p.Bounds = "every byte string of length <= 3 as key and as value of the JSON encoder, of the text encoder at the top level and inside a nested array: identical to WriteLogString"
+		wb, jb, tb := &bytes.Buffer{}, &bytes.Buffer{}, &bytes.Buffer{}
+		je := log.NewJSONEncoder(jb)
+		var x [3]byte
+		one := func(sx string) {
+			p.Executions++
+			wb.Reset()
+			log.WriteLogString(wb, sx)
+			out := wb.String()
+			jb.Reset()
+			je.Reset()
+			je.AppendObjectBegin()
+			je.AppendKey(sx)
+			je.AppendString(sx)
+			je.AppendObjectEnd()
+			if jb.Len() != 2*len(out)+7 || jb.String() != `{"`+out+`":"`+out+`"}` {
+				p.fail(Violation{Clause: "json-encoder-escaping", Key: fmt.Sprintf("%q", sx), Detail: fmt.Sprintf("JSON encoder wrote %q for key and value %q, the escaper writes %q", jb.String(), sx, out)}, hexOf(sx))
+			}
+			tb.Reset()
+			te := log.NewTextEncoder(tb, "||")
+			te.AppendKey(sx)
+			te.AppendString(sx)
+			te.AppendKey("n")
+			te.AppendArrayBegin()
+			te.AppendString(sx)
+			te.AppendArrayEnd()
+			if want := out + "=" + out + `||n=["` + out + `"]`; tb.String() != want {
+				p.fail(Violation{Clause: "text-encoder-escaping", Key: fmt.Sprintf("%q", sx), Detail: fmt.Sprintf("text encoder wrote %q, want %q", tb.String(), want)}, hexOf(sx))
+			}
+		}
+		for a := 0; a < 256; a++ {
+			if a%r.nshards != r.shard {
+				continue
+			}
+			if r.expired() {
+				p.Capped = true
+				return
+			}
+			x[0] = byte(a)
+			one(string(x[:1]))
+			for b := 0; b < 256; b++ {
+				x[1] = byte(b)
+				one(string(x[:2]))
+				for c := 0; c < 256; c++ {
+					x[2] = byte(c)
+					one(string(x[:3]))
+				}
+			}
+		}
+		p.States, p.Transitions = p.Executions, 3*p.Executions
+		p.addObs("paths")
+		p.addObs("ok")
+	}, replay: c09Replay})
 	// the reference decoder itself against encoding/json, and the encoders' key/string paths
 	parts = append(parts, partDef{prop: "C09", name: "c09/encoders-and-reference", tiers: "qt", run: func(r *runCtx, p *Part) {
 		p.Bounds = "all strings of length <= 2 over all bytes: reference decoder vs encoding/json; AppendKey/AppendString of both encoders vs WriteLogString"
